@@ -7,7 +7,7 @@ EXTERNAL = [
 
 PROPS = {
     "C01": {
-        "suites": [("entity", 3000, 60000)],
+        "suites": [("entity", 3000, 60000), ("rt", 2500, 60000)],
         "show_constants": True,
         "proved_scope": "character level: parse_content(serialize_text s)=s and parse_content(serialize_attribute s)=s for every string; escaped output free of raw '<' / '\"' / TAB / LF / CR",
         "not_proved": "tree level (C01_main): serializer + tokenizer contract + builder",
